@@ -164,8 +164,35 @@ class PropertyRun:
                 self.assumptions.append(a)
         self.bounded.extend(res['bounded'])
 
+    def vacuity_guard(self, budget=12):
+        """Contradictory hypotheses prove anything.  A sample of the proved obligations of every task gets its hypotheses checked for satisfiability; an unsatisfiable set is reported as UNDECIDED (vacuous)."""
+        import random as _r
+        import z3 as _z3
+        obs = [o for o in self.obligations if getattr(o, 'status', None) == 'proved' and o.hyps]
+        # (an obligation whose goal is literally False states 'this path is unreachable': contradictory hypotheses ARE its proof)
+        rest = [o for o in obs if not _z3.is_false(o.goal)]
+        rng = _r.Random(len(obs))
+        sample = rest[:2] + (rng.sample(rest[2:], min(budget, len(rest) - 2)) if len(rest) > 2 else [])
+        seen = set()
+        for o in sample:
+            key = tuple(h.get_id() for h in o.hyps)
+            if key in seen:
+                continue
+            seen.add(key)
+            s_ = _z3.Solver()
+            s_.set('timeout', 3000)
+            for h in o.hyps:
+                s_.add(h)
+            if s_.check() == _z3.unsat:
+                if o.meta.get('expect') == 'refuted':
+                    continue
+                o.status = 'unknown'
+                self.undecided.append({'obligation': o.name, 'reason': 'VACUOUS: the hypotheses of this obligation are contradictory '
+                                       '(an assumption of the harness or a contract excludes every state)'})
+
     def export(self, timeout_ms):
         discharge(self.obligations, timeout_ms=timeout_ms, workers=1)
+        self.vacuity_guard()
         return {'records': [self._record(o) for o in self.obligations] + self.records,
                 'grounds': [dict(name=g.name, ok=g.ok, detail=g.detail, kind=g.kind, backend=g.backend,
                                  witness=g.witness, replay=g.replay) for g in self.grounds],
@@ -198,6 +225,7 @@ class PropertyRun:
         if timeout_ms is None:
             timeout_ms = 30000 if self.tier == 'quick' else 120000
         discharge(self.obligations, timeout_ms=timeout_ms, workers=workers)
+        self.vacuity_guard()
         self.records = [self._record(o) for o in self.obligations] + self.records
         known = self.known_findings()
         n_ob = len(self.records) + len(self.grounds)
